@@ -28,7 +28,7 @@ constructors.  Name resolution itself is the `Names` layer (C04/C07), C3 the `Mr
 
 The model follows the code as fixed by cb98646 (a superseded duplicate `'x 0'` is not visible:
 `isVisible` requires the object to be its parent's `contents` entry), aaed9bd (`taglink` renders the plain
-label when the target is not visible: `taglinkGuard`), 1da744b (`format_docstring` renders under
+label when the target is not visible: `taglinkGuard`), 4b6324b (the index pages skip hidden roots), 1da744b (`format_docstring` renders under
 `switch_context(obj)`), 97be2c0 (`findRootClasses` appends a root class to the list already stored under
 its name), 07382d3 (`reparent` updates `parentMod` of what is inside a moved class; `modul` is input).
 `requests s` = every `taglink` call / listing entry the page code makes; `emits s` = what is left of them
@@ -553,11 +553,12 @@ def classIndexTexts (s : Sys) : List (Name × Bool) :=
 def visibleAll (s : Sys) : List Nat := s.all.filter (visible s)
 
 def summaryEmits (s : Sys) : List Emit :=
-  s.roots.flatMap (moduleSummary s s.n true)
+  -- since 4b6324b: `for o in self.system.rootobjects if o.isVisible`
+  (s.roots.filter (visible s)).flatMap (moduleSummary s s.n true)
   ++ classIndexEmits s
   ++ (visibleAll s).map (fun o => entry .nameIndex (.summary .nameIndex) (some (.summary .nameIndex)) o (ctxPrivate s o))
   ++ ((visibleAll s).filter fun o => !(s.ob o).hasDoc).map (link .undoc (.summary .undocced) (some (.summary .undocced)))
-  ++ (if (rootNames s).length > 1 then s.roots.map (link .indexRoots .index (some .index)) else [])
+  ++ (if (rootNames s).length > 1 then (s.roots.filter (visible s)).map (link .indexRoots .index (some .index)) else [])
   ++ (visibleAll s).flatMap (fun o =>
         entry .allDocs (.summary .allDocuments) none o ((s.ob o).privacy == .priv)
         :: sumLinks s .allDocsSum (.summary .allDocuments) o)
@@ -573,8 +574,9 @@ def Row.isEntry : Row → Bool
   | _ => false
 
 /-- the visibility guard inside `linker.taglink` (since "fix: taglink renders plain text instead of a link
-when the target is hidden"): `return tags.transparent(label)`. A listing element is written all the same,
-with the label as text; the plain label of an inline link is not a mention. -/
+when the target is hidden"): `return tags.transparent(label)`. A listing element would be written all the
+same, with the label as text (every entry row tests `isVisible` itself, so this never happens: `entry_visible`);
+the plain label of an inline link is not a mention. -/
 def taglinkGuard (s : Sys) (e : Emit) : Option Emit :=
   if visible s e.target then some e
   else if e.row.isEntry then some { e with linked := false }
@@ -641,12 +643,6 @@ def urlResolves (s : Sys) (i : Nat) : Bool :=
   | some u => resolvesHref s u.file ⟨some u.file, u.frag⟩
 
 /-! ### guards (the third column of the producer table) -/
-
-/-- the two rows that are written even when `taglink` refuses the link: the `<li>` of a root in
-moduleIndex.html (`moduleSummary`) and in index.html (`IndexPage.roots`) iterate `rootobjects` unguarded -/
-def Row.rootRow : Row → Bool
-  | .modIndexRoot | .indexRoots => true
-  | _ => false
 
 /-- listing rows on which the property demands the `private` marker (member tables, member details,
 sidebar, module index, search documents) -/
@@ -737,6 +733,12 @@ def subclassesFromOld (s : Sys) : Nat → Nat → List Nat
   | 0, _ => []
   | f+1, c =>
     c :: ((s.ob c).subclasses.filter fun sc => !hasSpace (fullName s sc) && visibleOld s sc).flatMap (subclassesFromOld s f)
+
+/-- the root rows of moduleIndex.html and index.html before 4b6324b: `rootobjects` iterated without a
+visibility test (after aaed9bd the row of a hidden root was written with its name as plain text) -/
+def rootRowsOld (s : Sys) : List Emit :=
+  (s.roots.flatMap (moduleSummary s s.n true)
+    ++ (if (rootNames s).length > 1 then s.roots.map (link .indexRoots .index (some .index)) else [])).filterMap (taglinkGuard s)
 
 def classIndexListedOld (s : Sys) : List Nat :=
   ((classes s).foldl (rootStepOld s) []).flatMap fun kv => kv.2.classes.flatMap (subclassesFromOld s s.n)
